@@ -18,6 +18,12 @@ Theorem C10_errors_located : forall (s : bytes) (es : list rerr), parse_text s =
 Proof. exact errors_located. Qed.
 Print Assumptions C10_errors_located.
 
+(* an error never points at a blank line (blank lines belong to no record) *)
+Theorem C10_errors_on_significant_lines : forall (s : bytes) (es : list rerr), parse_text s = Ok (Failed es) ->
+  Forall (fun e => is_blank_text (re_text e) = false) es.
+Proof. exact errors_on_significant_lines. Qed.
+Print Assumptions C10_errors_on_significant_lines.
+
 (* errors come in ascending line order *)
 Theorem C10_errors_ascending : forall (s : bytes) (es : list rerr), parse_text s = Ok (Failed es) ->
   Sorted le (map re_line es).
